@@ -142,13 +142,20 @@ void tl_op(int kind, long v, bool* has, TLTrace* t) {
   using TL = typename TLType<Slot>::type;
   using VT = typename TL::ValueType;
   auto put = [&](const std::string& op, const std::string& ob) { if (!t->ops.empty()) { t->ops += ' '; t->obs += ' '; } t->ops += op; t->obs += ob; };
+  // the initialiser is passed as an rvalue, an lvalue or a const lvalue in turn: one slot per (T, Slot),
+  // whatever the shape of the arguments
+  VT lv = static_cast<VT>(v); const VT clv = static_cast<VT>(v);
+  VT lv1 = static_cast<VT>(v + 1); const VT clv1 = static_cast<VT>(v + 1);
   if (kind == 0) {              // a ThreadLocal object constructed with a value (initialises when empty)
-    TL tl{static_cast<VT>(v)};
+    long got = 0;
+    if (v % 3 == 0) { TL tl{static_cast<VT>(v)}; got = static_cast<long>(tl.Get()); }
+    else if (v % 3 == 1) { TL tl{lv}; got = static_cast<long>(tl.Get()); }
+    else { TL tl{clv}; got = static_cast<long>(tl.Get()); }
     has[Slot] = true;
-    put("i." + std::to_string(Slot) + "." + std::to_string(v), std::to_string(static_cast<long>(tl.Get())));
+    put("i." + std::to_string(Slot) + "." + std::to_string(v), std::to_string(got));
   } else if (kind == 1) {       // Initialize through an object constructed with a value: same rule, twice
-    TL tl{static_cast<VT>(v)};
-    tl.Initialize(static_cast<VT>(v + 1));
+    TL tl{clv};
+    if (v % 3 == 0) tl.Initialize(static_cast<VT>(v + 1)); else if (v % 3 == 1) tl.Initialize(lv1); else tl.Initialize(clv1);
     has[Slot] = true;
     put("i." + std::to_string(Slot) + "." + std::to_string(v), std::to_string(static_cast<long>(tl.Get())));
     put("i." + std::to_string(Slot) + "." + std::to_string(v + 1), std::to_string(static_cast<long>(tl.Get())));
